@@ -78,6 +78,105 @@ def run(res, tier, seed, replay):
                 return
             res.nontrivial(("graph-order", g, d))
     res.notes["inheritance_graph_orders"] = {g: len(l) for g, l in by.items()}
+    # reference graphs: random DAGs of types that refer to one another through properties, array items, unions and plain
+    # aliases (a type reached twice through different members, aliases of aliases), used by method blocks as bodies and as
+    # Headers; every block - TYPE and method alike - in random orders: one verdict, one catalog
+    import random as _random
+    rng = _random.Random(seed + 10)
+    ref_groups = []
+    for gi in range(200 if tier == "quick" else 1500):
+        nt = rng.randint(4, 7)
+        kinds, texts, is_obj = [None] * nt, [None] * nt, [None] * nt
+        allrefs = None
+        if gi % 2:
+            # a tree (every leaf is used once, by its parent) plus one or two extra references to NON-leaf types from other
+            # branches: an inner type is reached twice, its leaves are not
+            nt = rng.randint(5, 8)
+            kinds, texts, is_obj = [None] * nt, [None] * nt, [None] * nt
+            allrefs = [[] for _ in range(nt)]
+            par = {}
+            for i in range(1, nt):
+                par[i] = rng.randrange(max(0, i - 3), i)
+                allrefs[par[i]].append(i)
+            inner = [b for b in range(1, nt) if allrefs[b]]
+            for _ in range(rng.randint(1, 2)):
+                if inner:
+                    b = rng.choice(inner)
+                    cands = [a for a in range(b) if a != par[b] and b not in allrefs[a]]
+                    if cands:
+                        allrefs[rng.choice(cands)].append(b)
+        for i in reversed(range(nt)):
+            later_ = list(range(i + 1, nt))
+            refs = rng.sample(later_, min(len(later_), rng.randint(0, 3))) if allrefs is None else sorted(allrefs[i], key=lambda _x: rng.random())
+            if not refs:
+                if rng.random() < 0.3:
+                    texts[i], is_obj[i] = "TYPE @t%d\n  \"s%d\"\n" % (i, i), False
+                else:
+                    texts[i], is_obj[i] = "TYPE @t%d\n  {\n    \"k%d\": %d\n  }\n" % (i, i, i), True
+            elif len(refs) == 1 and rng.random() < (0.35 if allrefs is None else 0.1):
+                texts[i], is_obj[i] = "TYPE @t%d\n  @t%d\n" % (i, refs[0]), is_obj[refs[0]]
+            else:
+                props = []
+                for j in refs:
+                    form = rng.randint(0, 3)
+                    props.append({0: '"p%d": @t%d', 1: '"p%d": [@t%d]', 2: '"p%d": @t%d | @t%d' % (j, j, refs[0]) if True else "", 3: '"p%d": @t%d // {optional: true}'}[form]
+                                 % ((j, j) if form != 2 else ()))
+                # the comma goes before the rule annotation of a property
+                lines_ = []
+                for pi, pr_ in enumerate(props):
+                    comma = "," if pi < len(props) - 1 else ""
+                    lines_.append(pr_.replace(" // ", comma + " // ") if " // " in pr_ else pr_ + comma)
+                texts[i], is_obj[i] = "TYPE @t%d\n  {\n    %s\n  }\n" % (i, "\n    ".join(lines_)), True
+        blocks = list(texts)
+        objs = [i for i in range(nt) if is_obj[i]]
+        for u in range(rng.randint(1, 3)):
+            b = rng.randrange(nt)
+            blk = "%s /u%d\n" % (rng.choice(["GET", "POST", "PUT"]), u)
+            if objs and rng.random() < 0.4:
+                blk += "  Query\n    @t%d\n" % rng.choice(objs)
+            if objs and rng.random() < 0.7:
+                blk += "  200\n    Headers\n      @t%d\n    Body @t%d\n" % (rng.choice(objs), b)
+            else:
+                blk += "  200 %s\n" % rng.choice(["@t%d" % b, "[@t%d]" % b])
+            blocks.append(blk)
+        orders = [list(blocks), list(reversed(blocks))]
+        for _ in range(10 if tier == "quick" else 22):
+            o = list(blocks)
+            rng.shuffle(o)
+            orders.append(o)
+        ref_groups.append(["JSIGHT 0.3\n" + "".join(o) for o in orders])
+    flat2 = [(gi, d) for gi, ds in enumerate(ref_groups) for d in ds]
+    outs2 = C.run_sharded("harness", "fn", [P.run_line("out=json", [("a.jst", d.encode())]) for _, d in flat2])
+    res.count(len(flat2))
+
+    def canon(o):
+        st, dd = P.parse(o)
+        if st != "ok":
+            return st + " " + C.unhx(dd.get("msg", "-")).decode("latin1")[:60], None
+        j = _json.loads(C.unhx(dd["json"]))
+
+        def strip(x):
+            if isinstance(x, dict):
+                return {k: strip(v) for k, v in x.items() if k != "example"}
+            if isinstance(x, list):
+                return [strip(v) for v in x]
+            return x
+        return "ok", _json.dumps(strip(j), sort_keys=True)
+    first, n_acc = {}, 0
+    for (gi, d), o in zip(flat2, outs2):
+        c = canon(o)
+        if gi not in first:
+            first[gi] = (d, c)
+            n_acc += c[0] == "ok"
+            continue
+        d0, c0 = first[gi]
+        if c != c0:
+            res.violation("declaration order matters: a graph of types that refer to one another, used as bodies, headers and queries, gives %s in one "
+                          "order of its blocks and %s in another%s" % (c0[0], c[0], " (the catalogs differ)" if c[0] == c0[0] == "ok" else ""),
+                          {"first": d0, "second": d, "graph": "reference-graph %d" % gi})
+            return
+        res.nontrivial(("ref-graph-order", d))
+    res.notes["reference_graph_orders"] = {"graphs": len(ref_groups), "orders_each": len(ref_groups[0]), "accepted_graphs": n_acc}
     last, bad = GP.run(res, "C10", tier, seed, replay, pr, take, known_rule)
     for msg, rp, found in bad:
         res.violation("declaration order matters: " + msg, rp, found_input=found)
